@@ -750,3 +750,58 @@ M('C18-key-reversed', 'C18', ENC, "algorithms.AES(shared_secret)", "algorithms.A
 M('C18-twin-kw', 'C18', ENC, "    cipher = Cipher(algorithms.AES(shared_secret), modes.CFB8(shared_secret),\n                    backend=default_backend())",
   "    key = shared_secret\n    cipher = Cipher(algorithm=algorithms.AES(key), mode=modes.CFB8(key),\n                    backend=default_backend())",
   expect='silent')
+
+# ---------------------------------------------------------------- C11
+M('C11-keepalive-omitted', 'C11', CONN,
+  "            keep_alive_packet.keep_alive_id = packet.keep_alive_id\n            self.connection.write_packet(keep_alive_packet)",
+  "            keep_alive_packet.keep_alive_id = packet.keep_alive_id", rule='R11.1')
+M('C11-keepalive-twice', 'C11', CONN,
+  "            keep_alive_packet.keep_alive_id = packet.keep_alive_id\n            self.connection.write_packet(keep_alive_packet)",
+  "            keep_alive_packet.keep_alive_id = packet.keep_alive_id\n            self.connection.write_packet(keep_alive_packet)\n            self.connection.write_packet(keep_alive_packet)",
+  rule='R11.1')
+M('C11-keepalive-id-truncated', 'C11', CONN, "            keep_alive_packet.keep_alive_id = packet.keep_alive_id",
+  "            keep_alive_packet.keep_alive_id = packet.keep_alive_id & 0x7FFFFFFF", rule='R11.1')
+M('C11-keepalive-only-when-spawned', 'C11', CONN,
+  "            keep_alive_packet.keep_alive_id = packet.keep_alive_id\n            self.connection.write_packet(keep_alive_packet)",
+  "            keep_alive_packet.keep_alive_id = packet.keep_alive_id\n            if self.connection.spawned:\n                self.connection.write_packet(keep_alive_packet)",
+  rule='R11.1')
+M('C11-sb-keepalive-codec', 'C11', SB_PLAY, "class KeepAlivePacket(AbstractKeepAlivePacket):\n    @staticmethod",
+  "class KeepAlivePacket(AbstractKeepAlivePacket):\n    get_definition = staticmethod(lambda context: [\n        {'keep_alive_id': Long} if context.protocol_later_eq(340)\n        else {'keep_alive_id': VarInt}])\n\n    @staticmethod",
+  rule='R11.1', edits=[
+      dict(file=SB_PLAY, find="class KeepAlivePacket(AbstractKeepAlivePacket):\n    @staticmethod",
+           repl="class KeepAlivePacket(AbstractKeepAlivePacket):\n    get_definition = staticmethod(lambda context: [\n        {'keep_alive_id': Long} if context.protocol_later_eq(340)\n        else {'keep_alive_id': VarInt}])\n\n    @staticmethod"),
+      dict(file=SB_PLAY, find="    Double, Float, Boolean, VarInt, String, Byte, Position, Enum,",
+           repl="    Double, Float, Boolean, VarInt, String, Byte, Position, Enum, Long,")])
+M('C11-teleport-id-constant', 'C11', CONN, "                teleport_confirm.teleport_id = packet.teleport_id",
+  "                teleport_confirm.teleport_id = 0", rule='R11.2')
+M('C11-branch-108', 'C11', CONN, "            if self.connection.context.protocol_later_eq(107):",
+  "            if self.connection.context.protocol_later_eq(108):", rule='R11.2')
+M('C11-spawned-one-arm', 'C11', CONN,
+  "                self.connection.write_packet(position_response)\n            self.connection.spawned = True",
+  "                self.connection.write_packet(position_response)\n                self.connection.spawned = True", rule='R11.2')
+M('C11-echo-yaw-pitch-swapped', 'C11', CONN,
+  "                position_response.yaw = packet.yaw\n                position_response.pitch = packet.pitch",
+  "                position_response.yaw = packet.pitch\n                position_response.pitch = packet.yaw", rule='R11.2')
+M('C11-handle-exit-from-disconnect', 'C11', CONN,
+  "        elif packet.packet_name == \"disconnect\":\n            self.connection.disconnect()\n\n\nclass StatusReactor",
+  "        elif packet.packet_name == \"disconnect\":\n            self.connection.disconnect()\n            self.connection._handle_exit()\n\n\nclass StatusReactor",
+  rule='R11.4')
+M('C11-exit-guard-dropped', 'C11', CONN, "        if not self.connected and self.handle_exit is not None:",
+  "        if self.handle_exit is not None:", rule='R11.4')
+M('C11-unknown-id-reads-stream', 'C11', CONN,
+  "                packet = packets.Packet()\n                packet.context = self.connection.context\n                packet.id = packet_id",
+  "                packet = packets.Packet()\n                packet.context = self.connection.context\n                packet.id = packet_id\n                packet.data = stream.read(1)",
+  rule='R11.3')
+M('C11-disconnect-ignored', 'C11', CONN,
+  "        elif packet.packet_name == \"disconnect\":\n            self.connection.disconnect()\n\n\nclass StatusReactor",
+  "        elif packet.packet_name == \"disconnect\":\n            pass\n\n\nclass StatusReactor", rule='R11.4')
+M('C11-teleport-field-unset', 'C11', CONN, "                teleport_confirm.teleport_id = packet.teleport_id\n", "",
+  rule='R11.8')
+M('C11-twin-reorder-echo-fields', 'C11', CONN,
+  "                position_response.x = packet.x\n                position_response.feet_y = packet.y\n                position_response.z = packet.z",
+  "                position_response.z = packet.z\n                position_response.feet_y = packet.y\n                position_response.x = packet.x",
+  expect='silent')
+M('C11-twin-earlier-form', 'C11', CONN,
+  "            if self.connection.context.protocol_later_eq(107):\n                teleport_confirm = serverbound.play.TeleportConfirmPacket()\n                teleport_confirm.teleport_id = packet.teleport_id\n                self.connection.write_packet(teleport_confirm)\n            else:\n",
+  "            if not self.connection.context.protocol_earlier(107):\n                teleport_confirm = serverbound.play.TeleportConfirmPacket(\n                    teleport_id=packet.teleport_id)\n                self.connection.write_packet(teleport_confirm)\n            else:\n",
+  expect='silent')
